@@ -6,6 +6,7 @@ NOTES = ("All checks are generated-input search (rapidcheck over tape-decoded ge
          "sub-spaces, libFuzzer in thorough tiers) against explicit oracles; see DESIGN.md. Every check rebuilds /repo's working tree "
          "(ASan+UBSan, -D_GLIBCXX_ASSERTIONS, -DTHEO_VERIF) keyed by a content hash.")
 ENGINES = {
+    "p_sem": "rapidcheck tape-decoded typed program generator vs reference interpreter (final state, stepping trace, frame accounting, value range)",
     "p_scan": "rapidcheck tape generator + exhaustive enumerators vs reference lexer / include resolver",
 }
 
@@ -64,6 +65,29 @@ PROPS["C15"] = dict(
 )
 
 
+PROPS["C01"] = dict(
+    harness="p_sem",
+    phases=dict(quick=[rc(8, 1200), rc(8, 6000, flavour="fast", seed_offset=100)],
+                thorough=[rc(16, 15000), rc(16, 150000, flavour="fast", seed_offset=100)]),
+    rule=("cases: typed random programs (0-5 program definitions incl. redefinition and OUT=parameter, nested LOOP/WHILE, labels and "
+          "forward/backward GOTO / IF-GOTO also into and out of loop bodies, nested calls as arguments, id+int / id-int sugar, a library "
+          "of user macros with native meaning: <V>&<V>, <V>*<V>, f(args), IF-THEN-ELSE, SWAP, REPEAT), printed in free layout (all keyword "
+          "spellings, comments, glued tokens) and split over up to 4 included files at arbitrary token boundaries. Oracle: independent "
+          "reference interpreter over the generator's AST: every user variable of every live activation at the end (also after STOP inside "
+          "a callee), divergence checked both ways with proportional budgets. Non-trivial: reference terminated within budget and executed "
+          ">=1 loop iteration, call or taken jump; distinct by content hash of the file map."),
+    min_nontrivial=dict(quick=3000, thorough=100000),
+    assumptions=["LOOP is the sugar c:=x; WHILE c!=0 DO B; c:=c-1 END with a hidden zero-initialised counter per loop and activation (defines jumps into loop bodies)",
+                 "executions whose reference values reach 2^31-1 are handed to C20 and discarded here",
+                 "the reference interpreter and generator are unverified; macros of the fixed library are interpreted natively, not by expansion"],
+    technique="property-based testing: rapidcheck tape-decoded typed program generator, differential against an independent reference interpreter",
+    level_text=("Exploration: tens of thousands (thorough: ~10^6) generated whole programs are compiled, run to the end on the VM and compared, "
+                "activation by activation and variable by variable, with a naive reference interpreter of the source-level semantics; "
+                "non-terminating references must not terminate on the VM within the proportional budget. No absence proof."),
+    level_note="trusted: reference interpreter (harness/ref/ref_interp.hpp), generator/printers (harness/common/gen_program.hpp), read-only VM hooks",
+)
+
+
 def run_check(chk, drv):
     cfg = chk.cfg
     binp = drv.build_harness(cfg["harness"], chk.th)
@@ -71,10 +95,19 @@ def run_check(chk, drv):
     special = cfg.get("special")
     if special == "dual_scanner":
         return dual_scanner(chk, drv, binp)
-    for ph in cfg["phases"][chk.tier]:
-        chk.run_phase(binp, ph)
-        if chk.violations or chk.broken:
-            break
+    bins = {"asan": binp}
+    phases = cfg["phases"][chk.tier]
+    for ph in phases:
+        fl = ph.get("flavour", "asan")
+        if fl not in bins:
+            bins[fl] = drv.build_harness(cfg["harness"], chk.th, fl)
+    # all phases of a tier run concurrently (the machine has 16 cores; workers are single-threaded)
+    spawned = []
+    for k, ph in enumerate(phases):
+        fl = ph.get("flavour", "asan")
+        spawned.append(chk.spawn_phase(bins[fl], ph, tagprefix="%s%d-" % (fl, k)))
+    for ws in spawned:
+        chk.collect_phase(ws)
     return chk.finish()
 
 
